@@ -181,7 +181,7 @@ def declarePackageName (st : State) (pkgName : String) (e : Entry) : Except Err 
     | (_, false) => .error (.redeclared pkgName)
 
 /-- the name `import "path"` declares: the package's own, unless it starts with `$` -/
-def defaultName (p : NativePkg) : String := if p.name.startsWith "$" then "" else p.name
+def defaultName (p : NativePkg) : String := if p.name.toList.head? == some (Char.ofNat 36) then "" else p.name
 
 /-- the native branch of `checkImport` -/
 def importNative (c : Cfg) (st : State) (path : String) (form : ImportForm) : Except Err State :=
